@@ -8,11 +8,15 @@ CASES = [
     ("C01", "TraceProps.tla", r'("e":"Return".*"op":"create".*)"succ":true=>\1"succ":false', "a successful create reported as failed"),
     ("C02", "TraceProps.tla", r'("e":"Return".*)"hdr":(\d+)(.*"succ":true)=>\g<1>"hdr":1\3', "a response header lowered to 1"),
     ("C03", "TraceProps.tla", r'("e":"RReturn".*)"kvs":\[\[[^\]]*\]=>\1"kvs":[[1,1,"zz"]', "first key-value of a read replaced"),
+    ("C04", "TraceProps.tla", r'("e":"WrapRun".*)"listed_last":true=>\1"listed_last":false', "the last write missing from the list after the ring wrapped"),
     ("C05", "TraceProps.tla", r'("e":"Recv","evs":\[\["[A-Z]+",\d+,)(\d+)=>\g<1>1', "a delivered event's revision"),
+    ("C06", "TraceProps.tla", r'("e":"Recv","evs":\[\["[A-Z]+",\d+,)(\d+)=>\g<1>1', "a delivered event's revision"),
     ("C07", "TraceProps.tla", r'("e":"RReturn".*)"kvs":\[\[[^\]]*\]=>\1"kvs":[[1,1,"zz"]', "first key-value of a read after a compaction"),
+    ("C08", "TraceProps.tla", r'"e":"CReturn","err":"","hdr":\d+=>"e":"CReturn","err":"","hdr":999', "the revision a compaction was accepted at"),
     ("C10", "TraceCoder.tla", r'"dok":true=>"dok":false', "a decode result"),
     ("C11", "TraceStorage.tla", r'("e":"SCommit".*)"res":"ok"=>\1"res":"cas"', "an engine commit result"),
     ("C12", "TraceAgree.tla", r'("e":"Resp".*"eng":"badger".*)"r":"=>\1"r":"x', "one transcript line of one engine"),
+    ("C13", "TraceProps.tla", r'"dups":0,"e":"BulkStream"=>"dups":3,"e":"BulkStream"', "duplicates in a bulk stream"),
     ("C14", "TraceElection.tla", r'("e":"LUpdate".*)"ok":true=>\1"ok":false', "a lock update result"),
     ("C16", "TraceEtcd.tla", r'"succ":true(?=.*"succ":\[\{"key":\d,"kind":"put"\}\])=>"succ":false',
      "the answer to a successful put transaction"),
